@@ -50,7 +50,7 @@ def tree_digest(tree, negate_fitness: bool = False, with_counters: bool = True) 
                     for ind in g:
                         h.update(np.asarray(ind.genome, dtype=float).tobytes())
                         v = float(ind.fitness)
-                        h.update(_f(sgn * v if v == v else v))
+                        h.update(_f((sgn * v + 0.0) if v == v else v))  # +0.0: -0.0 and 0.0 are the same value
     return h.hexdigest()
 
 
